@@ -407,7 +407,7 @@ func TestVerifC19(t *testing.T) {
 		return
 	}
 	th := enumx.Thorough()
-	maxP, maxF := 3, 1
+	maxP, maxF := 3, 2 // (more fallbacks than primaries matters: worker counts, sequential processing)
 	if th {
 		maxP, maxF = 3, 2
 	}
